@@ -3,6 +3,8 @@ package mutating
 // C13-H2: mutatePodResourceSpec (tier translation). Overlay-only.
 
 import (
+	"encoding/json"
+
 	corev1 "k8s.io/api/core/v1"
 	"k8s.io/apimachinery/pkg/api/resource"
 	metav1 "k8s.io/apimachinery/pkg/apis/meta/v1"
@@ -104,6 +106,65 @@ func ZzvC13Translate() {
 	again, err2 := h.mutatePodResourceSpec(pod)
 	zzverif.Assert(err2 == nil && !again, "admitting the result again changes nothing")
 	check("second pass")
+
+	// ---- the per-container summary annotation (written by the next step of the same admission)
+	changed, aerr := h.mutateByExtendedResources(pod)
+	zzverif.Assert(aerr == nil, "the summary annotation can be written")
+	spec, gerr := extension.GetExtendedResourceSpec(pod.Annotations)
+	zzverif.Assert(gerr == nil && spec != nil, "the summary annotation can be read")
+	anyBatch := false
+	for i := 0; i < n; i++ {
+		res := pod.Spec.Containers[i].Resources
+		_, rc := res.Requests[extension.BatchCPU]
+		_, rm := res.Requests[extension.BatchMemory]
+		_, lc := res.Limits[extension.BatchCPU]
+		_, lm := res.Limits[extension.BatchMemory]
+		has := rc || rm || lc || lm
+		anyBatch = anyBatch || has
+		var cspec extension.ExtendedResourceContainerSpec
+		listed := false
+		if spec != nil {
+			cspec, listed = spec.Containers[names[i]]
+		}
+		zzverif.Assert(listed == has, "the summary lists exactly the containers that request batch resources")
+		if !listed || !has {
+			continue
+		}
+		same := func(a, b corev1.ResourceList, name corev1.ResourceName) {
+			qa, oka := a[name]
+			qb, okb := b[name]
+			zzverif.Assert(oka == okb, "the summary names the same batch resources as the final spec")
+			if oka && okb {
+				zzverif.Assert(qa.Value() == qb.Value(), "the summary carries the amounts of the final spec")
+			}
+		}
+		same(cspec.Requests, res.Requests, extension.BatchCPU)
+		same(cspec.Requests, res.Requests, extension.BatchMemory)
+		same(cspec.Limits, res.Limits, extension.BatchCPU)
+		same(cspec.Limits, res.Limits, extension.BatchMemory)
+	}
+	zzverif.Assert(changed == anyBatch, "the summary annotation is written iff some container requests batch resources")
+	if anyBatch {
+		zzverif.Reach("summary-annotation-written")
+	}
+	// admitting the result again: the API server hands the stored pod back (the resource lists have been
+	// through their JSON text once), both mutations run again, nothing changes
+	before := pod.Annotations[extension.AnnotationExtendedResourceSpec]
+	for i := range pod.Spec.Containers {
+		text, merr := json.Marshal(pod.Spec.Containers[i].Resources)
+		var back corev1.ResourceRequirements
+		zzverif.Assume(merr == nil && json.Unmarshal(text, &back) == nil)
+		pod.Spec.Containers[i].Resources = back
+	}
+	again, err3 := h.mutatePodResourceSpec(pod)
+	zzverif.Assert(err3 == nil && !again, "admitting the stored result again changes nothing (resources)")
+	check("re-admission")
+	// (the function may report "mutated" although it writes the same text — an empty list it builds is
+	// not DeepEqual to the absent list it reads — the webhook's patch is computed from the pod, so what
+	// counts is the pod)
+	_, err4 := h.mutateByExtendedResources(pod)
+	zzverif.Assert(err4 == nil, "admitting the stored result again succeeds")
+	zzverif.Assert(pod.Annotations[extension.AnnotationExtendedResourceSpec] == before, "admitting the stored result again leaves the summary annotation as it is")
 	zzverif.Reach("end")
 }
 
